@@ -51,6 +51,61 @@ def record(ver, o, reverse=False):
     return r
 
 
+def construct(cls, s):
+    """Build cls from s the way callers do: positionally, or -- for one string in four, chosen by the string
+    itself so that a replay makes the same choice -- by keyword (`vector=` is the documented parameter name).
+    If the class does not take that keyword the positional call is made instead (not judged)."""
+    import zlib
+    try:
+        kw = zlib.crc32(s.encode("utf-8", "replace")) % 4 == 3
+    except Exception:
+        kw = False
+    if kw:
+        try:
+            return cls(vector=s)
+        except TypeError as e:
+            if "vector" not in str(e) and "keyword" not in str(e):
+                raise
+    return cls(s)
+
+
+BUILT = ("from_rh_vector", "copy", "deepcopy", "pickle", "text")
+
+
+def build(L, ver, s, how=None):
+    """An object for the accepted vector string s, obtained the way `how` says: None = the constructor;
+    'from_rh_vector' = from the Red Hat notation with the true score in front; 'copy' / 'deepcopy' / 'pickle' =
+    a copy of the constructed object; 'text' = the object parse_cvss_from_text() builds from s (v2, v3).
+    Returns None where that way does not yield an object of the class (not judged: no property promises that
+    objects can be copied, and the extractor may legitimately return nothing for some string)."""
+    o = L.CLS[ver](s)
+    if how is None:
+        return o
+    try:
+        if how == "from_rh_vector":
+            o2 = L.CLS[ver].from_rh_vector("%.1f/%s" % (o.scores()[0], s))
+        elif how == "copy":
+            import copy
+            o2 = copy.copy(o)
+        elif how == "deepcopy":
+            import copy
+            o2 = copy.deepcopy(o)
+        elif how == "pickle":
+            import pickle
+            o.clean_vector(), hash(o), o.as_json()
+            o2 = pickle.loads(pickle.dumps(o, 2))
+        elif how == "text":
+            if ver == "4":
+                return None
+            found = [x for x in L.parser.parse_cvss_from_text("(" + s + ")") if type(x) is L.CLS[ver] and x.as_json()["vectorString"] == s]
+            o2 = found[0] if found else None
+        else:
+            return None
+    except Exception:
+        return None
+    return o2 if type(o2) is L.CLS[ver] else None
+
+
 JSON_SCORE_KEYS = ("baseScore", "temporalScore", "environmentalScore")
 
 
